@@ -427,7 +427,9 @@ M18(L) ==
         /\ (R.fromStore \/ (R.e.st = 504 /\ R.e.tok = "")))
 
 \* --- C19 ---------------------------------------------------------------
-Bound(L) == 4 * Cardinality(L.pairs) * (Cardinality(L.varies) + 1) + 8
+\* Footprint.tla: an index holds at most one reference per (Vary field set, resolved values), entries are keyed by
+\* the resolved values, and there is one index per URI - so pairs * (field sets + 1) bounds both, with 2 to spare
+Bound(L) == Cardinality(L.pairs) * (Cardinality(L.varies) + 1) + 2
 A19(L) == (IsOp(L) /\ L.nreq > 3 * Bound(L)) \/ (IsRet(L) /\ L.last.unsafeOK /\ ~L.faulted)
 M19(L) ==
   /\ (IsOp(L) => L.last.e.nkeys <= Bound(L) /\ L.last.e.maxidx <= Bound(L))
